@@ -319,6 +319,123 @@ def readLog (st : LogState) (append : Bool) (lines : List Str) : Except Err LogS
       | .error e => .error e
       | .ok sims => .ok { sims := sims, version := version, date := date }
 
+/-! ### Log.read on a caller-owned open stream
+
+`uber_open_rmode` passes an open binary stream through: the single pass iterates over it from wherever it stands,
+pandas reads from wherever it stands and consumes it, and the `log_info.seek(0)` statements of `Log.read`,
+`__read_thermo` and `__read_performance` (which of them exist, and on which side of the read, comes from the source:
+`Gen.Log.seek*`) move it back.  The stream object outlives the call, so its position is part of the history. -/
+
+/-- an open binary stream: its content and its position (`k` whole lines consumed, then `c` characters of the next). -/
+structure Stream where
+  lines : List Str
+  k : Nat := 0
+  c : Nat := 0
+deriving DecidableEq, Repr
+
+/-- what a reader starting at the current position sees. -/
+def Stream.rest (s : Stream) : List Str :=
+  match s.lines.drop s.k with
+  | [] => []
+  | l :: ls => l.drop s.c :: ls
+
+/-- `stream.seek(0)` -/
+def Stream.seek0 (s : Stream) : Stream := { s with k := 0, c := 0 }
+
+/-- `stream.seek(0)` if the source has the statement. -/
+def Stream.seekIf (b : Bool) (s : Stream) : Stream := if b then s.seek0 else s
+
+/-- position after a reader consumed the stream (`for line in stream`; pandas on a log below its chunk size). -/
+def Stream.exhaust (s : Stream) : Stream := { s with k := s.lines.length, c := 0 }
+
+/-- is there a `log_info.seek(0)` statement before / after the single pass, before / after the pandas read of
+    `__read_thermo`, before / after the pandas read of `__read_performance`. -/
+structure SeekFlags where
+  beforeScan : Bool
+  afterScan : Bool
+  thermoBefore : Bool
+  thermoAfter : Bool
+  perfBefore : Bool
+  perfAfter : Bool
+deriving DecidableEq, Repr
+
+/-- the seeks of the source. -/
+def seekFlags : SeekFlags :=
+  ⟨Gen.Log.seekBeforeScan, Gen.Log.seekAfterScan, Gen.Log.thermoSeekBefore, Gen.Log.thermoSeekAfter,
+   Gen.Log.perfSeekBefore, Gen.Log.perfSeekAfter⟩
+
+/-- the single pass and every pandas read start at the beginning of the stream: the pass is preceded by a seek; a
+    table read either seeks itself or follows a seek (after the pass / after the previous table read). -/
+def SeekFlags.sound (f : SeekFlags) : Bool :=
+  f.beforeScan && (f.thermoBefore || (f.afterScan && f.thermoAfter)) &&
+    (f.perfBefore || (f.afterScan && f.thermoAfter && f.perfAfter))
+
+/-- `__read_thermo(log_info, header, footer)` on the stream as it stands. -/
+def readThermoS (f : SeekFlags) (s : Stream) (header footer : Int) : Except Err (Table × Stream) :=
+  let s := s.seekIf f.thermoBefore
+  match readThermo (nonBlank s.rest) header footer with
+  | .error e => .error e
+  | .ok t => .ok (t, s.exhaust.seekIf f.thermoAfter)
+
+def readBlocksS (f : SeekFlags) (s : Stream) : List Int → List Int → Except Err (List Table × Stream)
+  | h :: hs, ft :: fs =>
+    match readThermoS f s h ft with
+    | .error e => .error e
+    | .ok (t, s) =>
+      match readBlocksS f s hs fs with
+      | .error e => .error e
+      | .ok (ts, s) => .ok (t :: ts, s)
+  | _, _ => .ok ([], s)
+
+/-- `__read_performance(log_info, header, footer, is_old_version)` on the stream as it stands. -/
+def readPerfS (f : SeekFlags) (s : Stream) (isOld : Bool) (header footer : Int) : Except Err (Perf × Stream) :=
+  let s := s.seekIf f.perfBefore
+  match (if isOld then readPerfOld (nonBlank s.rest) header footer else readPerfNew (nonBlank s.rest) header footer) with
+  | .error e => .error e
+  | .ok p => .ok (p, s.exhaust.seekIf f.perfAfter)
+
+def assignPerfS (f : SeekFlags) (s : Stream) (isOld : Bool) (j : Nat) :
+    List Int → List Int → List Int → List Sim → Except Err (List Sim × Stream)
+  | _, _, [], sims => .ok (sims, s)
+  | h :: hs, k :: ks, ft :: fs, sims =>
+    match readPerfS f s isOld h ft with
+    | .error e => .error e
+    | .ok (p, s) =>
+      match pyIndex? sims.length (k + j) with
+      | none => .error .index
+      | some idx =>
+        assignPerfS f s isOld j hs ks fs (sims.modify idx (fun x => { x with perf := some p }))
+  | _, _, _ :: _, _ => .error .index
+
+/-- `Log.read(stream, append)` with the seeks `f`: the new state of the `Log` and of the stream. -/
+def readLogSW (f : SeekFlags) (st : LogState) (append : Bool) (s : Stream) : Except Err (LogState × Stream) :=
+  let st := if append then st else st.reset
+  let s := s.seekIf f.beforeScan
+  let sc := scan { haveVersion := st.version.isSome } s.rest
+  let s := s.exhaust.seekIf f.afterScan
+  let vd : Except Err (Option Str × Option Date) :=
+    match sc.versionLine with
+    | none => .ok (st.version, st.date)
+    | some l =>
+      let v := extractVersion l
+      match dateOf v with
+      | .error e => .error e
+      | .ok d => .ok (some v, some d)
+  match vd with
+  | .error e => .error e
+  | .ok (version, date) =>
+    match readBlocksS f s sc.thermoHeaders (sc.thermoFooters ++ [(sc.i : Int) + Gen.Log.thermoFinalFooterOffset]) with
+    | .error e => .error e
+    | .ok (tables, s) =>
+      let sims := st.sims ++ tables.map (fun t => ({ thermo := t } : Sim))
+      match assignPerfS f s sc.isOld st.sims.length sc.perfHeaders sc.perfSims sc.perfFooters sims with
+      | .error e => .error e
+      | .ok (sims, s) => .ok ({ sims := sims, version := version, date := date }, s)
+
+/-- `Log.read(stream, append)` as the source has it. -/
+def readLogS (st : LogState) (append : Bool) (s : Stream) : Except Err (LogState × Stream) :=
+  readLogSW seekFlags st append s
+
 /-! ### Log.flatten -/
 
 section Flatten
